@@ -3707,3 +3707,69 @@ func ruleDirtyFlagLifeCycle(r *Run, rule string) {
 		}
 	}
 }
+
+// ruleProceedHoldsLock (R10.14 / R06.17): the functions of the coherence layer that answer an
+// access with (response, release, lock) either tell the access to WAIT or hand out the line
+// lock they acquired for it: a return whose lock result is nil carries the wait response. An
+// access that proceeds without the line lock does not wait for an older store to the line that
+// another core still has in flight.
+func ruleProceedHoldsLock(r *Run, rule string) {
+	w := r.W
+	for _, v := range variants(w) {
+		if v.pkg == nil || !v.pipelined() || !usesLineLocks(w, v) {
+			continue
+		}
+		info := v.info
+		for _, f := range v.pkg.Syntax {
+			for _, d := range f.Decls {
+				fd, ok := d.(*ast.FuncDecl)
+				if !ok || fd.Body == nil || fd.Type.Results == nil {
+					continue
+				}
+				// results: (struct with a bool field `wait`, func(), *comp.Sem)
+				var rts []types.Type
+				for _, fl := range fd.Type.Results.List {
+					k := len(fl.Names)
+					if k == 0 {
+						k = 1
+					}
+					for i := 0; i < k; i++ {
+						rts = append(rts, info.TypeOf(fl.Type))
+					}
+				}
+				if len(rts) != 3 || !isCompType(rts[2], "Sem") {
+					continue
+				}
+				n := 0
+				ast.Inspect(fd.Body, func(m ast.Node) bool {
+					if _, ok := m.(*ast.FuncLit); ok {
+						return false
+					}
+					rs, ok := m.(*ast.ReturnStmt)
+					if !ok || len(rs.Results) != 3 {
+						return true
+					}
+					tv := info.Types[rs.Results[2]]
+					if !tv.IsNil() {
+						return true
+					}
+					n++
+					waits := false
+					if cl, ok := ast.Unparen(rs.Results[0]).(*ast.CompositeLit); ok {
+						for _, e := range cl.Elts {
+							if kv, ok := e.(*ast.KeyValueExpr); ok {
+								if k, ok := kv.Key.(*ast.Ident); ok && strings.EqualFold(k.Name, "wait") {
+									if tv2 := info.Types[kv.Value]; tv2.Value != nil && tv2.Value.String() == "true" {
+										waits = true
+									}
+								}
+							}
+						}
+					}
+					r.check(waits, rule, fmt.Sprintf("%s.%s:no-lock-return#%d", v.rel, declName(fd), n), rs.Pos(), "a return that hands out no line lock tells the access to wait")
+					return true
+				})
+			}
+		}
+	}
+}
